@@ -390,8 +390,21 @@ def replay(o):
             got = np.asarray(getattr(t, meth)([wu, wd], *extra))
             ref = np.array([np.asarray(getattr(t, single)(wu[k], wd[k], *extra)) for k in range(nw)])
             worst = max(worst, float(np.max(np.abs(got.reshape(ref.shape) - ref))))
-    o["replayed"] = bool(worst > 1e-9)
-    o["witness"] = dict(model=o.get("witness"), native=dict(uhf_trial_n_walkers=nw, batch_counts=[1, 2, 3, 6], max_deviation_batched_vs_per_walker=worst))
+    # restricted (single array) overloads: rhf trial
+    wave_r = {"mo_coeff": jnp.array(rng.normal(size=(norb, 1)))}
+    wr = jnp.array(rng.normal(size=(nw, norb, 1)) + 1j * rng.normal(size=(nw, norb, 1)))
+    worst_r = 0.0
+    for nbatch in (1, 2, 3, 6):
+        t = wf.rhf(norb, (1, 1), n_batch=nbatch)
+        hd = t._build_measurement_intermediates(dict(ham0), wave_r)
+        for meth, single in (("calc_overlap", "_calc_overlap_restricted"), ("calc_force_bias", "_calc_force_bias_restricted"), ("calc_energy", "_calc_energy_restricted")):
+            extra = (hd, wave_r) if meth != "calc_overlap" else (wave_r,)
+            got = np.asarray(getattr(t, meth)(wr, *extra))
+            ref = np.array([np.asarray(getattr(t, single)(wr[k], *extra)) for k in range(nw)])
+            worst_r = max(worst_r, float(np.max(np.abs(got.reshape(ref.shape) - ref))))
+    o["replayed"] = bool(max(worst, worst_r) > 1e-9)
+    o["witness"] = dict(model=o.get("witness"), native=dict(n_walkers=nw, batch_counts=[1, 2, 3, 6], uhf_list_walkers_max_deviation_batched_vs_per_walker=worst,
+                                                          rhf_array_walkers_max_deviation_batched_vs_per_walker=worst_r))
 
 
 def lane():
